@@ -106,11 +106,15 @@ def cases(shard):
         rng = random.Random(shard["rs"])
         g = gen.ScriptGen(rng, maxdepth=2, hostile=0.2, multiline=0.05)
         for i in range(shard["n"]):
-            toks, exts = g.script(ncmds=rng.choice([1, 1, 2]))
-            if len(toks) > 40:
+            toks, exts = g.script(ncmds=rng.choice([1, 1, 2, 3]))
+            if len(toks) > 60:
                 continue
-            for kind, pos, mt in gen.single_edits(toks, gen.V_SMALL + [b"foobar", b":foobar", b"1"],
-                                                  rng, shard["cap"]):
+            for kind, pos, mt in gen.single_edits(
+                    toks, gen.V_SMALL + [b"foobar", b":foobar", b"1", b"elsif", b"keep"],
+                    rng, shard["cap"]):
+                yield "mut", gen.join_tokens(mt), {"toks": mt, "edit": kind, "pos": pos,
+                                                   "base": toks}
+            for kind, pos, mt in gen.targeted_edits(toks, rng):
                 yield "mut", gen.join_tokens(mt), {"toks": mt, "edit": kind, "pos": pos,
                                                    "base": toks}
     elif w == "meta":
